@@ -150,6 +150,25 @@ CHECKS["C10"] = {
     "technique": TECH + "length typing of the result on all paths, dispatch coverage, termination shape, guard-dominated divisor discipline with a one-symbol allow-list, data-flow pattern for deflation",
 }
 
+CHECKS["C11"] = {
+    "text": "For all coefficient vectors: Add/Sub take self positively and rhs with the trait's sign on every return path including the empty-operand shortcuts "
+            "(Sub with empty self returns -rhs); results have max(deg,deg')+1 resp. deg+deg'+1 zero-initialised coefficients with each operand guarded by its own degree; "
+            "the product index is the sum of the factor indices over full ranges; eval is Horner from the leading coefficient with i descending; derivative uses target i, "
+            "source i+1 and exactly i+1 repeated additions; derivative_n applies it n times; consuming forms forward in operand order; trim pops only trailing zeros; is_zero scans the full range.",
+    "design_ref": "DESIGN.md §3 C11",
+    "note": "The ring and calculus laws as value equalities follow from these definitional formulae and are not decided as value statements.",
+    "technique": TECH + "polarity on every return path, length/graded-index/Horner/derivative data-flow patterns, delegation check",
+}
+CHECKS["C12"] = {
+    "text": "polydiv returns Err for the empty and the all-zero divisor before anything else; its only loop increments a counter at the top level of the body and returns Err "
+            "past a constant cap (no continue), and every reachable callee loop is bounded with an acyclic call graph (never spins); the quotient term has length deg r - deg v + 1 "
+            "with lead(r)/lead(v) at index deg r - deg v; one iteration does q <- q + t and r <- r - t*v with the same t and v (so u = q*v + r is a loop invariant in exact "
+            "arithmetic); the loop exits on r = 0 or deg r < deg v and returns Ok((q, r)).",
+    "design_ref": "DESIGN.md §3 C12",
+    "note": "Whether the loop ends through its condition rather than the cap for EVERY f64 input depends on exact cancellation of leading coefficients — a floating-point value question, not decided; no failing input could be exhibited.",
+    "technique": TECH + "dominating Err guards, counter-capped loop shape + call-graph termination, term/update pairing patterns",
+}
+
 NOT_APPLICABLE = {
 }
 for _i in range(1, 21):
